@@ -25,7 +25,7 @@ Definition apply_deff (e : deff) (f : N -> option desc) (g : N) : option desc :=
   match e with
   | DNone => f g
   | DSet g0 d => if g0 =? g then Some d else f g
-  | DDel k => match f g with Some d' => if gkey_eqb (gk d') k then None else Some d' | None => None end
+  | DDel k => match f g with Some d' => if eq_target d' k then None else Some d' | None => None end
   end.
 
 Lemma dent_put_dig g0 d t g : dent (put ref_eqb (RDig g0) d t) g = if g0 =? g then Some d else dent t g.
@@ -46,7 +46,7 @@ Lemma dent_untag_fold k t g :
 Proof.
   intro Hnd. unfold dent, apply_deff. rewrite (untag_fold_order_free k t t (RDig g) Hnd) by tauto.
   unfold spec_untag_equal. rewrite get_filter_nodup by exact Hnd. simpl.
-  destruct (get ref_eqb (RDig g) t) as [d'|]; auto. now destruct (gkey_eqb (gk d') k).
+  destruct (get ref_eqb (RDig g) t) as [d'|]; auto. now destruct (eq_target d' k).
 Qed.
 
 Lemma dent_spec_oci_tag d r t g :
@@ -153,7 +153,7 @@ Section OciDig.
            destruct (d_dig d =? g) eqn:E; [|apply Hd]; apply N.eqb_eq in E; intro H; injection H as <-;
            split; auto; eapply wf2_canon; eauto; reflexivity).
       + destruct (dent (r_index (o_res st)) g) as [d'|] eqn:E; [|discriminate].
-        destruct (gkey_eqb (gk d') (gk d)); [discriminate|]. intro H. injection H as <-. now apply Hd.
+        destruct (eq_target d' (gk d)); [discriminate|]. intro H. injection H as <-. now apply Hd.
     - intros g Hp Hman. rewrite He. rewrite Hb in Hp. unfold apply_deff, qeff, vblobs in *.
       destruct o; try (now apply Hm).
       + destruct (get N.eqb (d_dig d) (o_blobs st)) eqn:Eb; [now apply Hm|].
@@ -174,13 +174,13 @@ Section OciDig.
           rewrite (get_del_neq N.eqb Neqb_spec) in Hp by exact Hne.
           specialize (Hm g Hp Hman). destruct (dent (r_index (o_res st)) g) as [d'|] eqn:E; [|congruence].
           destruct (Hd g d' E) as [Hg _].
-          destruct (gkey_eqb (gk d') (gk d)) eqn:Ek; [|discriminate].
-          apply gkey_eqb_spec in Ek. exfalso. apply Hne. rewrite <- Hg. unfold gk in Ek. congruence.
+          destruct (eq_target d' (gk d)) eqn:Ek; [|discriminate].
+          apply eq_target_spec in Ek. exfalso. apply Hne. rewrite <- Hg. exact Ek.
         * specialize (Hm g Hp Hman). destruct (dent (r_index (o_res st)) g) as [d'|] eqn:E; [|congruence].
           destruct (Hd g d' E) as [Hg _].
-          destruct (gkey_eqb (gk d') (gk d)) eqn:Ek; [|discriminate].
-          apply gkey_eqb_spec in Ek. exfalso.
-          assert (g = d_dig d) by (rewrite <- Hg; unfold gk in Ek; congruence). subst g. congruence.
+          destruct (eq_target d' (gk d)) eqn:Ek; [|discriminate].
+          apply eq_target_spec in Ek. exfalso.
+          assert (g = d_dig d) by (rewrite <- Hg; exact Ek). subst g. congruence.
   Qed.
 
   Lemma qdig_init : qdig oci_init.
@@ -304,7 +304,7 @@ Section OciDig.
         split; [exact I|]. split.
         * intros g d0. rewrite Hs'. unfold apply_deff.
           destruct (dent (r_index (o_res s)) g) as [d'|] eqn:E; [|discriminate].
-          destruct (gkey_eqb (gk d') (gk d)); [discriminate|]. intro X. injection X as <-. now apply Hd.
+          destruct (eq_target d' (gk d)); [discriminate|]. intro X. injection X as <-. now apply Hd.
         * intros g PQ PS Hb Hiff. destruct (Hb eq_refl) as [NPQ NPS].
           rewrite Hs'. rewrite run_cons. cbn [fst run]. rewrite (oci_step_dent q (Delete d) Hwfo Hqd Hndq).
           cbn [qeff]. unfold apply_deff.
@@ -318,8 +318,8 @@ Section OciDig.
             by (intros (d0 & m & E0 & _); discriminate).
           destruct (dent (r_index (o_res s)) g) as [d1|] eqn:E1; destruct (dent (r_index (o_res q)) g) as [d2|] eqn:E2.
           -- destruct (Hd g d1 E1) as [G1 C1]. destruct (Hqd g d2 E2) as [G2 C2].
-             assert (Hgk : gk d1 = gk d2) by (unfold canon_desc in *; congruence). rewrite Hgk.
-             destruct (gkey_eqb (gk d2) (gk d)).
+             assert (Hgk : eq_target d1 (gk d) = eq_target d2 (gk d)) by (unfold eq_target; congruence). rewrite Hgk.
+             destruct (eq_target d2 (gk d)).
              ++ split; intros [X|[X|X]]; try congruence; tauto.
              ++ split; intros _; left; discriminate.
           -- exfalso. assert (X : Some d1 <> None) by discriminate. apply Hnn in X. congruence.
@@ -340,7 +340,7 @@ Section OciDig.
           -- right. left. exists d. auto.
         * assert (X : forall f, match (match get N.eqb (d_dig d) (o_blobs q) with Some _ => DNone | None => if true && false then DSet (d_dig d) d else DNone end)
                                 with DNone => f | DSet g0 d0 => if g0 =? d_dig d then Some d0 else f
-                                | DDel k => match f with Some d' => if gkey_eqb (gk d') k then None else Some d' | None => None end end = f).
+                                | DDel k => match f with Some d' => if eq_target d' k then None else Some d' | None => None end end = f).
           { intro f. destruct (get N.eqb (d_dig d) (o_blobs q)); reflexivity. }
           rewrite X. split.
           -- intros [A|[(d0 & [E0|E0] & G0 & M0)|A]].
@@ -354,7 +354,7 @@ Section OciDig.
              ++ destruct (proj2 Hiff (or_intror (or_intror A))) as [Y|[(d0 & [E0|E0] & _)|Y]]; [now left | discriminate | discriminate | right; now right].
       + assert (X : forall f, match (match get N.eqb (d_dig d) (o_blobs q) with Some _ => DNone | None => if true && is_manifest (d_mt d) then DSet (d_dig d) d else DNone end)
                               with DNone => f | DSet g0 d0 => if g0 =? g then Some d0 else f
-                              | DDel k => match f with Some d' => if gkey_eqb (gk d') k then None else Some d' | None => None end end = f).
+                              | DDel k => match f with Some d' => if eq_target d' k then None else Some d' | None => None end end = f).
         { intro f. destruct (get N.eqb (d_dig d) (o_blobs q)); [reflexivity|].
           destruct (is_manifest (d_mt d)); simpl; [|reflexivity]. apply N.eqb_neq in Hne. now rewrite Hne. }
         rewrite X. split.
@@ -623,7 +623,7 @@ Section OciDig.
     - (* Predecessors: as in the first theorem *)
       assert (Hcan : Forall (canon_op U) (map snd (oc_log cf))).
       { eapply Forall_impl; [|eapply Permutation_Forall; [apply Permutation_sym; exact Hperm0 | exact Hwf1]].
-        intros o [A _]. exact A. }
+        intros o [A _]. apply canon_op_all_weaken. exact A. }
       destruct (run_refines_oci U U_dig (map snd (oc_log cf)) oci_init Hcan (oci_inv_init U)) as (_ & _ & [_ Hg2 _]).
       fold (seq_ostate (map snd (oc_log cf))) in Hg2. rewrite <- Hbl in Hg2.
       assert (Hg1 : graph_inv (S_oci U (o_blobs (oc_store cf))) (o_graph (oc_store cf))).
